@@ -113,11 +113,81 @@ fn test(c: &SimCase, obs: &mut Obs) -> CheckResult {
     Ok(())
 }
 
+// ---------------------------------------------------------------------------------------------
+// the rule on `State` directly: generated rounds whose completed probes carry (expected, quoted)
+// UDP checksums drawn from a tiny alphabet, so that equal / different neighbours, silent hops in
+// between and responders without checksums occur in every combination
+
+fn syn_strat() -> BoxedStrategy<super::c05::History> {
+    super::c05::history_strat(super::c05::HistOpts { max_rounds: 8, max_probes: 10, hosts_per_hop: 2, max_flows: (1, 4), ..super::c05::HistOpts::default() })
+}
+
+fn syn_test(h: &super::c05::History, obs: &mut Obs) -> CheckResult {
+    use trippy_core::{NatStatus, ProbeStatus};
+    // expected last status per ttl: 0 not applicable, 1 not detected, 2 detected
+    let mut want: BTreeMap<u8, u8> = BTreeMap::new();
+    let (mut detected, mut after_gap) = (0usize, 0usize);
+    let mut after = |k: usize, b: &super::c05::BuiltRound, state: &trippy_core::State| -> CheckResult {
+        let mut prev: Option<u16> = None;
+        let mut gap_since_prev = false;
+        for p in &b.probes {
+            match p {
+                ProbeStatus::Complete(c) => {
+                    if let (Some(exp), Some(act)) = (c.expected_udp_checksum, c.actual_udp_checksum) {
+                        let differs = match prev {
+                            Some(q) => q != act.0,
+                            None => exp.0 != act.0,
+                        };
+                        want.insert(c.ttl.0, if differs { 2 } else { 1 });
+                        if differs {
+                            detected += 1;
+                        }
+                        if prev.is_some() && gap_since_prev {
+                            after_gap += 1;
+                        }
+                        prev = Some(act.0);
+                        gap_since_prev = false;
+                    }
+                }
+                ProbeStatus::Awaited(_) | ProbeStatus::Failed(_) => gap_since_prev = true,
+                _ => {}
+            }
+        }
+        for hop in state.hops() {
+            if hop.ttl() == 0 {
+                continue;
+            }
+            let got = match hop.last_nat_status() {
+                NatStatus::NotApplicable => 0,
+                NatStatus::NotDetected => 1,
+                NatStatus::Detected => 2,
+            };
+            let w = want.get(&hop.ttl()).copied().unwrap_or(0);
+            let name = |v: u8| ["not-applicable", "not-detected", "detected"][usize::from(v)];
+            vensure!(got == w, "nat-status-synthetic", "after round {k}: hop ttl {}: last_nat_status = {}, the rule gives {}", hop.ttl(), name(got), name(w));
+        }
+        Ok(())
+    };
+    super::c05::apply_history(h, &mut after)?;
+    if detected > 0 {
+        obs.class("synthetic:detected");
+    }
+    if after_gap > 0 {
+        obs.class("synthetic:responder-after-silent-hop");
+    }
+    if want.len() >= 2 {
+        obs.class("nontrivial");
+        obs.nontrivial(&serde_json::to_string(h).unwrap_or_default());
+    }
+    obs.sample(json!({"rounds": h.rounds.len(), "hops_with_status": want.len(), "detected": detected}));
+    Ok(())
+}
+
 pub fn check() -> PropertyCheck {
     PropertyCheck {
         id: "C19",
         level: "exploration",
-        rule: "cases = (UDP configuration of every strategy/family plus ICMP/TCP controls, world with 0..3 address/port rewriting devices at arbitrary distances, silent and lossy hops, ECMP) by proptest; oracle = per round, walk the ground-truth responders in probe order comparing the UDP checksum each one quoted with the previous responder's (first: with the checksum captured on the wire); non-trivial = Dublin/IPv4 run with >= 2 responders; distinct by (per-ttl expected status, #devices, packet size, pattern)",
+        rule: "nat-e2e: cases = (UDP configuration of every strategy/family plus ICMP/TCP controls, world with 0..3 address/port rewriting devices at arbitrary distances, silent and lossy hops, ECMP) by proptest; oracle = per round, walk the ground-truth responders in probe order comparing the UDP checksum each one quoted with the previous responder's (first: with the checksum captured on the wire); non-trivial = Dublin/IPv4 run with >= 2 responders; distinct by (per-ttl expected status, #devices, packet size, pattern). synthetic: generated round sequences applied to State directly, completed probes carrying (expected, quoted) checksums from a 4-letter alphabet or none, silent / failed / skipped probes in between; oracle = the same walk; distinct by history",
         assumptions: vec![
             "a NAT restores the quoted source address/port on the way back (RFC 5508) but not the quoted UDP checksum",
         ],
@@ -127,6 +197,14 @@ pub fn check() -> PropertyCheck {
             thorough: 2_000_000,
             strat,
             test,
+            max_shrink: 3000,
+        }),
+        Box::new(Pbt {
+            name: "synthetic",
+            quick: 60_000,
+            thorough: 3_000_000,
+            strat: syn_strat,
+            test: syn_test,
             max_shrink: 3000,
         })],
     }
